@@ -589,7 +589,7 @@ def apalache_part(rep, tier):
         t0 = time.time()
         try:
             p = subprocess.run(['apalache-mc', 'check'] + args + ['--out-dir=' + out_dir, 'PurityInd.tla'], cwd=os.path.join(common.SPEC, 'apalache'),
-                               capture_output=True, timeout=3000)
+                               capture_output=True, timeout=3000, preexec_fn=common._unlimit_memory)
         except subprocess.TimeoutExpired:
             raise common.MachineryError(f'Apalache timed out on {name}')
         finally:
